@@ -198,71 +198,73 @@ Definition trim_ctl (s : bytes) : bytes := rev (drop_while is_space_or_ctl (rev 
 Definition window_start (s : bytes) (maxr : Z) : outcome bytes :=
   if (Z.of_nat (length s) >? maxr)%Z then slice_z s 0%Z maxr else Ok s.
 
-(* extractLabelAtStart: (label, remaining text); failure = ("", text) *)
-Definition extract_at_start (text lbound rbound : bytes) (maxr : Z) (t : option ctable) : outcome (bytes * bytes) :=
+(* extractLabelAtStart after the left boundary has been cut: (label, remaining text); failure = ("", text) *)
+Definition start_go (text rbound : bytes) (maxr : Z) (t : option ctable) (s : bytes) : outcome (bytes * bytes) :=
   let fail := Ok ([], text) in
-  let go (s : bytes) :=
-    let* fast := match s, t with
-                 | c :: _, Some tb => Ok (negb (table_get tb c))
-                 | _, _ => Ok false
-                 end in
-    if fast then fail else
-    match rbound with
-    | _ :: _ =>
-      let* win := window_start s maxr in
-      match index_of win rbound 0 with
-      | None => fail
-      | Some iend =>
-        let tag := firstn iend s in
-        let* bad := match t with
-                    | Some _ => let* n := match_from_start tag t 0 in Ok (negb (Nat.eqb n (length tag)))
-                    | None => Ok false
-                    end in
-        if bad then fail else Ok (trim_ctl tag, skipn (iend + length rbound) s)
-      end
-    | [] =>
-      let* tag_end := match_from_start s t 0 in
-      if Nat.eqb tag_end 0 then fail else Ok (trim_ctl (firstn tag_end s), skipn tag_end s)
-    end in
-  match lbound with
-  | _ :: _ => if is_prefix lbound text then go (skipn (length lbound) text) else fail
-  | [] => go text
+  let* fast := match s, t with
+               | c :: _, Some tb => Ok (negb (table_get tb c))
+               | _, _ => Ok false
+               end in
+  if fast then fail else
+  match rbound with
+  | _ :: _ =>
+    let* win := window_start s maxr in
+    match index_of win rbound 0 with
+    | None => fail
+    | Some iend =>
+      let tag := firstn iend s in
+      let* bad := match t with
+                  | Some _ => let* n := match_from_start tag t 0 in Ok (negb (Nat.eqb n (length tag)))
+                  | None => Ok false
+                  end in
+      if bad then fail else Ok (trim_ctl tag, skipn (iend + length rbound) s)
+    end
+  | [] =>
+    let* tag_end := match_from_start s t 0 in
+    if Nat.eqb tag_end 0 then fail else Ok (trim_ctl (firstn tag_end s), skipn tag_end s)
   end.
 
-(* extractLabelAtEnd *)
-Definition extract_at_end (text lbound rbound : bytes) (maxr : Z) (t : option ctable) : outcome (bytes * bytes) :=
+Definition extract_at_start (text lbound rbound : bytes) (maxr : Z) (t : option ctable) : outcome (bytes * bytes) :=
+  match lbound with
+  | _ :: _ => if is_prefix lbound text then start_go text rbound maxr t (skipn (length lbound) text) else Ok ([], text)
+  | [] => start_go text rbound maxr t text
+  end.
+
+(* extractLabelAtEnd after the right boundary has been cut *)
+Definition end_go (text lbound : bytes) (maxr : Z) (t : option ctable) (s : bytes) : outcome (bytes * bytes) :=
   let fail := Ok ([], text) in
-  let go (s : bytes) :=
-    let* fast := match rev s, t with
-                 | c :: _, Some tb => Ok (negb (table_get tb c))
-                 | _, _ => Ok false
-                 end in
-    if fast then fail else
-    match lbound with
-    | _ :: _ =>
-      let len := Z.of_nat (length s) in
-      let* found :=
-        if (len >? maxr)%Z then
-          let* win := slice_z s (len - maxr)%Z len in
-          Ok (option_map (fun i => i + Z.to_nat (len - maxr)%Z) (last_index_of win lbound 0))
-        else Ok (last_index_of s lbound 0) in
-      match found with
-      | None => fail
-      | Some iend =>
-        let tag := skipn (iend + length lbound) s in
-        let* bad := match t with
-                    | Some _ => let* b := match_from_end tag t in Ok (negb (Nat.eqb b 0))
-                    | None => Ok false
-                    end in
-        if bad then fail else Ok (trim_ctl tag, firstn iend s)
-      end
-    | [] =>
-      let* tag_beg := match_from_end s t in
-      if Nat.eqb tag_beg (length s) then fail else Ok (trim_ctl (skipn tag_beg s), firstn tag_beg s)
-    end in
+  let* fast := match rev s, t with
+               | c :: _, Some tb => Ok (negb (table_get tb c))
+               | _, _ => Ok false
+               end in
+  if fast then fail else
+  match lbound with
+  | _ :: _ =>
+    let len := Z.of_nat (length s) in
+    let* found :=
+      if (len >? maxr)%Z then
+        let* win := slice_z s (len - maxr)%Z len in
+        Ok (option_map (fun i => i + Z.to_nat (len - maxr)%Z) (last_index_of win lbound 0))
+      else Ok (last_index_of s lbound 0) in
+    match found with
+    | None => fail
+    | Some iend =>
+      let tag := skipn (iend + length lbound) s in
+      let* bad := match t with
+                  | Some _ => let* b := match_from_end tag t in Ok (negb (Nat.eqb b 0))
+                  | None => Ok false
+                  end in
+      if bad then fail else Ok (trim_ctl tag, firstn iend s)
+    end
+  | [] =>
+    let* tag_beg := match_from_end s t in
+    if Nat.eqb tag_beg (length s) then fail else Ok (trim_ctl (skipn tag_beg s), firstn tag_beg s)
+  end.
+
+Definition extract_at_end (text lbound rbound : bytes) (maxr : Z) (t : option ctable) : outcome (bytes * bytes) :=
   match rbound with
-  | _ :: _ => if has_suffix text rbound then go (firstn (length text - length rbound) text) else fail
-  | [] => go text
+  | _ :: _ => if has_suffix text rbound then end_go text lbound maxr t (firstn (length text - length rbound) text) else Ok ([], text)
+  | [] => end_go text lbound maxr t text
   end.
 
 Definition extract (ex : extractor) (text : bytes) : outcome (bytes * bytes) :=
